@@ -288,9 +288,23 @@ def build_dag(dd, tag=TAG):
     import networkx as nx
     from y0.dsl import Variable
 
-    rep = dd.get("tag_rep") or TAG_REPS[sum(map(ord, "".join(dd["nodes"]) + "".join(dd["latent"]))) % 5 % 3]
+    ck = sum(map(ord, "".join(dd["nodes"]) + "".join(dd["latent"])))
+    rep = dd.get("tag_rep") or TAG_REPS[ck % 5 % 3]
     kernel.count("C16:tag-representation:" + rep)
     g = nx.DiGraph()
+    if ck % 7 == 3:
+        # the library's own helper marks the latents (a set, a list, a generator or a single variable)
+        from y0.graph import set_latent
+
+        g.add_nodes_from(Variable(n) for n in dd["nodes"])
+        lat = [Variable(n) for n in dd["latent"]]
+        arg = set(lat) if ck % 4 == 0 else (lat if ck % 4 == 1 else ((x for x in lat) if ck % 4 == 2 else
+                                                                      (lat[0] if len(lat) == 1 else tuple(lat))))
+        set_latent(g, arg, tag=tag)
+        kernel.count("C16:latents-marked-by-set_latent")
+        for u, v in dd["edges"]:
+            g.add_edge(Variable(u), Variable(v))
+        return g
     for n in dd["nodes"]:
         g.add_node(Variable(n), **{tag: _tag_value(n in dd["latent"], rep)})
     for u, v in dd["edges"]:
@@ -464,6 +478,47 @@ def run_taheri(ctx, dd, rng):
                              f"reference on the latent projection says {want}", case={"dag": dd, "cause": a, "effect": b})
 
 
+def run_taheri_admg(ctx, gd, rng, pair=None):
+    """taheri_design_admg: the same enumeration started from an ADMG (its bidirected edges are fixed latents)."""
+    from y0.algorithm.taheri_design import taheri_design_admg
+    from y0.dsl import Variable
+
+    if len(gd["nodes"]) < 3:
+        return
+    g = gg.to_nx(gd)
+    a, b = pair or rng.sample(sorted(gd["nodes"]), 2)
+    ref = gg.to_rg(gd)
+    if not pair and Variable(b) not in ref.descendants_inclusive({Variable(a)}):
+        a, b = b, a
+    kernel.LOG.reset_case({"graph": gd, "cause": a, "effect": b, "taheri": "admg"})
+    with kernel.quiet():
+        dag = g.to_latent_variable_dag(tag=TAG)
+    nodes0, edges0 = set(dag.nodes()), set(dag.edges())
+    fixed = {n for n, a_ in dag.nodes(data=True) if a_.get(TAG)}  # the latents standing for the bidirected edges
+    form = sum(map(ord, gg.key(gd))) % 2
+    try:
+        results = taheri_design_admg(g, a if form else Variable(a), b if form else Variable(b), tag=TAG)
+    except Exception as e:  # noqa: BLE001
+        kernel.count(f"C16:taheri-admg-raised-{type(e).__name__}")
+        return
+    for r in results:
+        lat = set(r.latents) | fixed  # Result.latents lists the induced latents only
+        if not lat <= nodes0:
+            kernel.count("C16:taheri-admg-latents-outside-the-lvdag")
+            continue
+        proj = latent_projection(nodes0, edges0, lat)
+        if Variable(a) not in proj.V or Variable(b) not in proj.V or not proj.is_acyclic():
+            continue
+        want = identifiable(proj, {Variable(a)}, {Variable(b)})
+        kernel.count("C16:taheri-verdicts-compared")
+        kernel.count("C16:taheri-admg-verdicts-compared")
+        if bool(r.identifiable) != want:
+            kernel.violation(PROP, "identifiability-preserved", f"taheri_design_admg on {gd} with latents "
+                             f"{sorted(map(str, lat))}: y0 says identifiable={r.identifiable} for P({b}|do({a})), the "
+                             f"reference on the latent projection says {want}",
+                             case={"graph": gd, "cause": a, "effect": b, "taheri": "admg"})
+
+
 def run_shard(ctx):
     from .. import mon_graph
 
@@ -494,6 +549,8 @@ def run_shard(ctx):
     for i in range(ctx.share({"quick": 60, "thorough": 1500}[ctx.tier])):
         dd = random_lvdag(rng, rng.randint(3, 5))
         run_taheri(ctx, dd, rng)
+    for i in range(ctx.share({"quick": 60, "thorough": 1500}[ctx.tier])):
+        run_taheri_admg(ctx, gg.random_admg(rng, rng.randint(3, 5), p_bi=rng.choice((0.1, 0.25))), rng)
 
 
 def replay(case):
@@ -513,6 +570,9 @@ def replay(case):
                                "edges": [e.split("->") for e in d["edges"]]})
     if "dag" in case and isinstance(case["dag"], dict) and "edges" in case["dag"] and "nodes" in case["dag"]:
         run_dag(_C(), case["dag"], rng, check_sep=True)
+    elif case.get("taheri") == "admg":
+        gd = case["graph"]
+        run_taheri_admg(_C(), {"nodes": gd["nodes"], "di": gd["di"], "bi": gd["bi"]}, rng, pair=(case["cause"], case["effect"]))
     elif "graph" in case and "latents" in case:
         from y0.algorithm.simplify_latent import evans_simplify
         from y0.dsl import Variable
